@@ -43,6 +43,8 @@ inductive PyVal
   | posInf
   /-- instance of a class: class name and instance attributes -/
   | obj (cls : String) (fields : List (String × PyVal))
+  /-- not a Python value: what a local holds before its first assignment (reading it is `UnboundLocalError`) -/
+  | unbound
   deriving Repr, Inhabited
 
 instance : Coe Bool PyVal := ⟨PyVal.bool⟩
@@ -224,6 +226,26 @@ def chain_from_iterable (xs : PyVal) : M PyVal := do
   let ls ← l.mapM iterate
   return .iter ls.flatten
 
+/-- `map(f, xs)` -/
+def map_ (f : PyVal → M PyVal) (xs : PyVal) : M PyVal := genexp f xs
+
+/-- `range(start, stop, step)` as a materialised iterator -/
+def rangeUp : Nat → Int → Int → Int → List PyVal
+  | 0, _, _, _ => []
+  | fuel + 1, i, stop, step => if i < stop then .int i :: rangeUp fuel (i + step) stop step else []
+def rangeDown : Nat → Int → Int → Int → List PyVal
+  | 0, _, _, _ => []
+  | fuel + 1, i, stop, step => if i > stop then .int i :: rangeDown fuel (i + step) stop step else []
+def range3 (a b c : PyVal) : M PyVal :=
+  match a, b, c with
+  | .int a, .int b, .int c =>
+    if c == 0 then throw valueError
+    else if c > 0 then pure (.iter (rangeUp (b - a).toNat a b c))
+    else pure (.iter (rangeDown (a - b).toNat a b c))
+  | _, _, _ => throw typeError
+def range2 (a b : PyVal) : M PyVal := range3 a b (.int 1)
+def range1 (b : PyVal) : M PyVal := range3 (.int 0) b (.int 1)
+
 /-- `enumerate(xs)` -/
 def enumerateFrom : Nat → List PyVal → List PyVal
   | _, [] => []
@@ -401,6 +423,15 @@ def list_insert (l i x : PyVal) : M PyVal :=
     pure (.list (xs.take k ++ x :: xs.drop k))
   | _ => throw attributeError
 
+/-- `l.remove(x)`: drops the first element equal to `x`, `ValueError` when there is none -/
+def removeFirst (x : PyVal) : List PyVal → Option (List PyVal)
+  | [] => Option.none
+  | y :: ys => if PyVal.eq y x then some ys else (removeFirst x ys).map (y :: ·)
+def list_remove (l x : PyVal) : M PyVal :=
+  match l with
+  | .list xs => (match removeFirst x xs with | some r => pure (.list r) | Option.none => throw valueError)
+  | _ => throw attributeError
+
 /-- `a, b, c = v` -/
 def unpack (n : Nat) (v : PyVal) : M (List PyVal) := do
   let l ← iterate v
@@ -502,6 +533,41 @@ def str_split_max (s sep n : PyVal) : M PyVal :=
   | .str _, _, _ => throw typeError
   | _, _, _ => throw attributeError
 
+/-- `s.replace(old, new)` for a one-character `old` -/
+def str_replace (s o n : PyVal) : M PyVal :=
+  match s, o, n with
+  | .str s, .str [c], .str n => pure (.str (s.flatMap fun x => if x == c then n else [x]))
+  | .str _, .str _, .str _ => throw "PyRtUnsupported"
+  | .str _, _, _ => throw typeError
+  | _, _, _ => throw attributeError
+
+/-! ### regular expressions: one hand-written matcher per pattern text that the selected functions use.
+`re_match pat s` is `re.match(pat, s)`: `None` or a match object holding the groups. -/
+
+/-- `cp\d+(.*)`: `\d` is Unicode-aware in CPython (the strings that reach it are ASCII: run-time restriction);
+`.` stops at a newline -/
+def rx_cp_digits_rest (s : Str) : Option (List PyVal) :=
+  match s with
+  | 99 :: 112 :: rest =>
+    let dr := spanDigits rest
+    if dr.1.isEmpty then Option.none else some [.str (dr.2.takeWhile (· != 10))]
+  | _ => Option.none
+
+def re_match (pat : String) (s : PyVal) : M PyVal :=
+  match s with
+  | .str s =>
+    if pat == "cp\\d+(.*)" then
+      pure (match rx_cp_digits_rest s with | some gs => .obj "re.Match" [("groups", .tuple gs)] | Option.none => .none)
+    else throw "PyRtUnsupported"
+  | _ => throw typeError
+
+/-- `m.group(k)` for `k ≥ 1` -/
+def match_group (m k : PyVal) : M PyVal :=
+  match m, k with
+  | .obj "re.Match" [("groups", .tuple gs)], .int k =>
+    if 1 ≤ k ∧ k.toNat ≤ gs.length then pure (gs.getD (k.toNat - 1) .none) else throw indexError
+  | _, _ => throw attributeError
+
 /-- `str(v)` for the values an f-string of the selected functions formats -/
 def format : PyVal → M Str
   | .str s => pure s
@@ -557,20 +623,59 @@ def className : PyVal → String
   | .obj c _ => c
   | .none => "NoneType" | .bool _ => "bool" | .int _ => "int" | .str _ => "str"
   | .list _ => "list" | .tuple _ => "tuple" | .iter _ => "iterator"
-  | .negInf => "NegativeInfinityType" | .posInf => "InfinityType"
+  | .negInf => "NegativeInfinityType" | .posInf => "InfinityType" | .unbound => "<unbound>"
 
 /-- `isinstance(v, (C1, C2, …))` by class name; `bool` is a subclass of `int` -/
 def isinstance (v : PyVal) (classes : List String) : Bool :=
   classes.contains (className v) || (classes.contains "int" && className v == "bool")
 
+/-- reading a local that may not have been assigned yet -/
+def bound : PyVal → M PyVal
+  | .unbound => throw "UnboundLocalError"
+  | v => pure v
+
+/-- `self.name = v` inside `__init__` (the object is not shared yet) -/
+def setField : List (String × PyVal) → String → PyVal → List (String × PyVal)
+  | [], n, v => [(n, v)]
+  | (k, x) :: rest, n, v => if k == n then (k, v) :: rest else (k, x) :: setField rest n v
+def setattr (o : PyVal) (name : String) (v : PyVal) : M PyVal :=
+  match o with
+  | .obj c fs => pure (.obj c (setField fs name v))
+  | _ => throw attributeError
+
+/-- `hash(v)`: an uninterpreted function of the value; the run-time uses the constant 0, which is faithful for code
+that only compares the hashes of two values next to comparing the values themselves -/
+def hash_ (_v : PyVal) : M PyVal := pure (.int 0)
+
 /-- `assert c` -/
 def assert_ (c : PyVal) : M Unit := if truthy c then pure () else throw assertionError
 
-/-- `try: body except C: handler` -/
-def tryCatch {α} (body : M α) (cls : List PyExc) (handler : M α) : M α :=
-  match body with
-  | .ok a => .ok a
-  | .error e => if cls.any (fun c => catches c e) then handler else .error e
+/-! ## the environment: what the selected functions read from outside (interpreter probes, functions that are not
+translated).  A table from a key (the source text of the read, e.g. `sys.version_info`, `platform_tags()`) to a
+value; for calls with arguments the value is a list of `(argument tuple, result)` pairs. -/
+
+abbrev Env := List (String × PyVal)
+
+def env_get (env : Env) (key : String) : M PyVal :=
+  match lookupField env key with
+  | some v => pure v
+  | Option.none => throw "PyRtEnvMissing"
+
+def env_call (env : Env) (key : String) (args : List PyVal) : M PyVal := do
+  let table ← iterate (← env_get env key)
+  let rec find : List PyVal → M PyVal
+    | [] => throw "PyRtEnvMissing"
+    | .tuple [a, r] :: rest => if PyVal.eq a (.tuple args) then pure r else find rest
+    | _ :: _ => throw "PyRtEnvMissing"
+  find table
+
+/-- an environment sent as a Python value: a list of `(key, value)` pairs with `str` keys -/
+def envOf (v : PyVal) : Env :=
+  match v with
+  | .list l => l.filterMap fun p => match p with
+    | .tuple [.str k, x] => some (toStringLossy k, x)
+    | _ => Option.none
+  | _ => []
 
 /-! ## typed views (how model values appear as Python values) -/
 
